@@ -1,0 +1,11 @@
+//go:build verif
+
+package message
+
+import "sync/atomic"
+
+// VerifResetPacketID sets the process-wide packet identifier counter.
+// Verification hook (build tag verif); not part of the library API.
+func VerifResetPacketID(v uint64) {
+	atomic.StoreUint64(&gPacketID, v)
+}
